@@ -378,3 +378,73 @@ Definition p2_last_ok (r : St * list E) : Prop := exists es, snd r = es ++ [err 
 End P2Skeleton.
 Arguments mkP2 {St}. Arguments p2_update {St}. Arguments p2_jump {St}. Arguments p2_accept {St}.
 Arguments p2_norm {St}. Arguments p2_stop {St}. Arguments p2_loop {St E}. Arguments p2_last_ok {St E}.
+
+(* ---------------------------------------------------------------- tensor ring: tr_to_tensor and the ALS sub-problem of mode d *)
+Section MTR.
+Context {F : Type} (Op : fops F).
+Local Notation "a *f b" := (fmul Op a b) (at level 40, left associativity).
+Local Notation "a -f b" := (fsub Op a b) (at level 50, left associativity).
+Definition delta (a b : nat) : F := if Nat.eqb a b then f1 Op else f0 Op.
+Definition matF := nat -> nat -> F.
+(* a chain of matrices, each given with its number of columns (= the bond dimension to its right) *)
+Fixpoint chain (ms : list (nat * matF)) (a b : nat) : F :=
+  match ms with
+  | [] => delta a b
+  | (r, M) :: ms' => Fsum Op r (fun c => M a c *f chain ms' c b)
+  end.
+Fixpoint endbond (r0 : nat) (ms : list (nat * matF)) : nat :=
+  match ms with [] => r0 | (r, _) :: ms' => endbond r ms' end.
+Definition mtrace (r0 : nat) (P : matF) : F := Fsum Op r0 (fun x => P x x).
+(* cores: (r_{k+1}, G_k) with G_k a i b, a < r_k, i < n_k, b < r_{k+1};  r_0 given separately, r_N = r_0 *)
+Definition core := (nat * (nat -> nat -> nat -> F))%type.
+Definition slices_at (cores : list core) (idx : list nat) : list (nat * matF) :=
+  map (fun ci => (fst (fst ci), fun a b => snd (fst ci) a (snd ci) b)) (combine cores idx).
+(* tr_to_tensor *)
+Definition tr_entry (r0 : nat) (cores : list core) (idx : list nat) : F := mtrace r0 (chain (slices_at cores idx)).
+(* (design_mat . sol)[idx', i] for mode d:  sum_{a,b} subchain[b, idx', a] * core_d[a, i, b],
+   subchain = cores d+1 .. N-1, 0 .. d-1 contracted in that (cyclic) order *)
+Definition ls_prediction (r0 : nat) (cores : list core) (d : nat) (idx' : list nat) (i : nat) : F :=
+  let pre := firstn d cores in let post := skipn (S d) cores in
+  let cd := nth d cores (0, fun _ _ _ => f0 Op) in
+  let sub := chain (slices_at post (skipn d idx') ++ slices_at pre (firstn d idx')) in
+  Fsum Op (endbond r0 (slices_at pre (firstn d idx'))) (fun a => Fsum Op (fst cd) (fun b => snd cd a i b *f sub b a)).
+(* || design_mat . sol - tensor_unf ||^2 *)
+Definition ls_residual2 (s : list nat) (X : list nat -> F) (r0 : nat) (cores : list core) (d : nat) : F :=
+  Fsum Op (nth d s 0) (fun i => Fsum_idx Op (remove_nth d s) (fun idx' => sq Op (ls_prediction r0 cores d idx' i -f X (insert_at d i idx')))).
+End MTR.
+
+Section MTRdata.
+Context {F : Type} (Op : fops F).
+(* a core as data: tensor of shape [r_k; n_k; r_{k+1}] *)
+Definition core_of (t : tensor F) : @core F := (nth 2 (shape t) 0, fun a i b => get (f0 Op) t [a; i; b]).
+(* (squared residual of the last least-squares sub-problem (mode N-1), squared residual of the ring from scratch, ||X||^2) *)
+Definition tr_all (X : tensor F) (cores : list (tensor F)) : F * F * F :=
+  let s := shape X in let r0 := nth 0 (shape (hd (mk [] []) cores)) 0 in
+  let cs := map core_of cores in
+  (ls_residual2 Op s (tfun Op X) r0 cs (length s - 1),
+   dist2 Op s (tr_entry Op r0 cs) (tfun Op X),
+   normsq Op s (tfun Op X)).
+End MTRdata.
+
+(* ---------------------------------------------------------------- sparsify_tensor and the callback issued BEFORE the loop *)
+Section MSparse.
+Context {F : Type} (Op : fops F).
+(* sparsify_tensor(t, card): keep the entries whose magnitude reaches the card-th largest magnitude (ties kept), zero the others;
+   |x| >= bound  <->  fewer than card entries are strictly larger in magnitude *)
+Definition sparsify (card : nat) (t : tensor F) : tensor F :=
+  if prod (shape t) <=? card then t
+  else mk (shape t) (map (fun x => if length (filter (fun y => negb (fleb Op (fabs Op y) (fabs Op x))) (data t)) <? card
+                                   then x else f0 Op) (data t)).
+Fixpoint zip3 (f : F -> F -> F -> F) (a b c : list F) : list F :=
+  match a, b, c with x :: a', y :: b', z :: c' => f x y z :: zip3 f a' b' c' | _, _, _ => [] end.
+(* residual of the un-imputed tensor  X - L  and of the imputed one  (X*m + L*(1-m)) - L *)
+Definition resid_raw (X L : tensor F) : tensor F := mk (shape X) (zip3 (fun x l _ => fsub Op x l) (data X) (data L) (data X)).
+Definition resid_imputed (X L m : tensor F) : tensor F :=
+  mk (shape X) (zip3 (fun x l mk_ => fsub Op (fadd Op (fmul Op x mk_) (fmul Op l (fsub Op (f1 Op) mk_))) l) (data X) (data L) (data m)).
+(* the pre-loop callback of parafac under mask + sparsity, the code as it is: the error is computed by error_calc (sparse
+   component of the IMPUTED residual), the sparse component handed to the callback is computed from the UN-imputed tensor *)
+Definition cb0_reported (X L m : tensor F) (card : nat) : F * F :=
+  err_explicit Op X (tfun Op L) (Some (sparsify card (resid_imputed X L m))) (Some m).
+Definition cb0_error_of_handed (X L m : tensor F) (card : nat) : F * F :=
+  err_explicit Op X (tfun Op L) (Some (sparsify card (resid_raw X L))) (Some m).
+End MSparse.
